@@ -47,6 +47,8 @@ type sessRT struct {
 	wrDone   [2]chan struct{} // closed when the writer of that direction has returned from its last Write
 	closing  chan struct{}    // closed when the harness starts closing the session
 	closeOne sync.Once
+	abort    chan struct{} // closed when any call on either end failed: the barrier gives up
+	abortOne sync.Once
 	dialErr  string
 	user     string
 	wg       sync.WaitGroup
@@ -72,7 +74,7 @@ func errClass(err error) string {
 
 func (w *World) newSession(c *clientRT, s *spec.Session) *sessRT {
 	key := sessKey(c.idx, s.ID)
-	rt := &sessRT{w: w, key: key, ci: c.idx, si: s.ID, spec: s, cli: c, sready: make(chan struct{}), closing: make(chan struct{})}
+	rt := &sessRT{w: w, key: key, ci: c.idx, si: s.ID, spec: s, cli: c, sready: make(chan struct{}), closing: make(chan struct{}), abort: make(chan struct{})}
 	connKey := c.idx*1000 + s.ID
 	for d := 0; d < 2; d++ {
 		rt.dirs[d] = &dirRT{prf: newPRF(w.Spec.Seed, connKey, d)}
@@ -122,7 +124,10 @@ func (rt *sessRT) runServerSide(conn net.Conn) {
 	rt.runEnd(conn, false)
 }
 
+func (rt *sessRT) giveUp() { rt.abortOne.Do(func() { close(rt.abort) }) }
+
 func (rt *sessRT) finishDirs(why string) {
+	rt.giveUp()
 	for d := 0; d < 2; d++ {
 		dr := rt.dirs[d]
 		dr.mu.Lock()
@@ -137,7 +142,7 @@ func (rt *sessRT) finishDirs(why string) {
 // runEnd runs a writer and a reader goroutine on one end and then the close
 // protocol.
 func (rt *sessRT) runEnd(conn net.Conn, isClient bool) {
-	w := rt.w
+	_ = rt.w
 	wd, rd := 0, 1 // client writes c2s, reads s2c
 	script, peerScript := &rt.spec.C2S, &rt.spec.S2C
 	if !isClient {
@@ -170,10 +175,10 @@ func (rt *sessRT) runEnd(conn net.Conn, isClient bool) {
 			// Wait until both readers have everything (or gave up).
 			// (and both writers have returned: in 0-RTT mode the client's first
 			// Write returns only after it has read the server's SOCKS reply)
-			waitOrCap(rt.readDone[0], w, 10*time.Minute)
-			waitOrCap(rt.readDone[1], w, 10*time.Minute)
-			waitOrCap(rt.wrDone[0], w, 10*time.Minute)
-			waitOrCap(rt.wrDone[1], w, 10*time.Minute)
+			rt.waitOrCap(rt.readDone[0], 10*time.Minute)
+			rt.waitOrCap(rt.readDone[1], 10*time.Minute)
+			rt.waitOrCap(rt.wrDone[0], 10*time.Minute)
+			rt.waitOrCap(rt.wrDone[1], 10*time.Minute)
 			time.Sleep(time.Duration(max64(rt.spec.CloseDelayUs, 1)) * time.Microsecond)
 			rt.closeOne.Do(func() { close(rt.closing) })
 			conn.Close()
@@ -191,11 +196,12 @@ func (rt *sessRT) runEnd(conn net.Conn, isClient bool) {
 	conn.Close()
 }
 
-func waitOrCap(ch chan struct{}, w *World, d time.Duration) {
+func (rt *sessRT) waitOrCap(ch chan struct{}, d time.Duration) {
 	t := time.NewTimer(d)
 	defer t.Stop()
 	select {
 	case <-ch:
+	case <-rt.abort:
 	case <-t.C:
 	}
 }
@@ -222,6 +228,7 @@ func (rt *sessRT) writer(conn net.Conn, dr *dirRT, sc *spec.Script, isClient boo
 			dr.writeErr = err.Error()
 			dr.writeDone = true
 			dr.mu.Unlock()
+			rt.giveUp()
 			return
 		}
 		if n != size {
@@ -243,6 +250,9 @@ func (rt *sessRT) writer(conn net.Conn, dr *dirRT, sc *spec.Script, isClient boo
 }
 
 func (rt *sessRT) streamProp() string {
+	if rt.w.Spec.Property == "C04" {
+		return "C04"
+	}
 	if rt.cli.spec.Transport == "udp" {
 		return "C02"
 	}
@@ -317,7 +327,11 @@ func (rt *sessRT) reader(conn net.Conn, dr *dirRT, sc *spec.Script, rd int, isCl
 			}
 			dr.mu.Lock()
 			dr.readEnd = errClass(err)
+			incomplete := dr.read < dr.expected
 			dr.mu.Unlock()
+			if incomplete {
+				rt.giveUp()
+			}
 			rt.checkEnd(dr, rd, err, isClient)
 			return
 		}
